@@ -226,13 +226,14 @@ Proof.
         intros x Hin [<-|Hs]; [auto|]. apply (Hdis x); auto.
 Qed.
 
-Lemma wf_all_none D l : wf_all D l = None <-> (forall d, In d l -> check_wf D (td_body d) = None).
+Lemma wf_all_none D l : wf_all D l = None <->
+  (forall d, In d l -> check_wf D (td_body d) = None /\ mode_eqb (mode_of (td_body d)) (td_mode d) = true).
 Proof.
-  induction l as [|d r IH]; cbn.
+  induction l as [|d r IH]; cbn [wf_all In].
   - split; [tauto | reflexivity].
-  - rewrite orelse_none, IH. split.
-    + intros [H1 H2] d' [<-|Hin]; auto.
-    + intros H; split; auto.
+  - unfold defmode_check. rewrite orelse_none, orelse_none, IH, if_negb_none. split.
+    + intros (H1 & (H2 & _) & H3) d' [<-|Hin]; auto.
+    + intros H. repeat split; try apply H; auto.
 Qed.
 
 Lemma contractive_all_none D l :
@@ -257,6 +258,7 @@ Lemma sanity_typedefs_ok D :
   sanity_typedefs D = Ok None <->
   NoDup (names D) /\
   (forall d, In d D -> check_wf D (td_body d) = None) /\
+  (forall d, In d D -> mode_eqb (mode_of (td_body d)) (td_mode d) = true) /\
   (forall d, In d D -> is_contractive (contractive_fuel D) D (td_body d) [] = Ok true).
 Proof.
   unfold sanity_typedefs. destruct (dup_def D []) eqn:Ed.
@@ -264,10 +266,11 @@ Proof.
     assert (dup_def D [] = false) by (apply dup_def_false; split; auto). congruence.
   - apply dup_def_false in Ed as [Hnd _].
     destruct (wf_all D D) as [e|] eqn:Ew.
-    + split; [discriminate|]. intros (_ & H & _). apply wf_all_none in H. congruence.
+    + split; [discriminate|]. intros (_ & H & Hm & _).
+      assert (wf_all D D = None) by (apply wf_all_none; intros d Hin; split; auto). congruence.
     + rewrite contractive_all_none. pose proof (proj1 (wf_all_none D D) Ew) as Hw. split.
-      * intros H. repeat split; auto. intros d Hin. apply H; auto.
-      * intros (_ & _ & H) d Hin. split; auto.
+      * intros H. repeat split; auto; intros d Hin; try apply Hw; auto. apply H; auto.
+      * intros (_ & Hc & _ & H) d Hin. split; auto.
 Qed.
 
 (* ------------------------------------------------------------------ isContractive / Unfold *)
@@ -390,19 +393,23 @@ Lemma modes_ok_proper D :
   (forall m t, ModesOK D m t -> proper m = true /\ mode_of t = m) /\ (forall m b, BrsModesOK D m b -> True).
 Proof. apply ModesOK_mut; cbn; intros; auto. Qed.
 
-(* the current code: sound only up to the recorded modes of the definitions (finding F20) *)
-Theorem wf_sound_guarded_proof D : sanity_typedefs D = Ok None -> DefModesAgree D -> WellFormed D.
+Theorem wf_sound_proof D : sanity_typedefs D = Ok None -> WellFormed D.
 Proof.
-  intros H Hg. apply sanity_typedefs_ok in H as (Hnd & Hw & Hc). constructor; auto.
+  intros H. apply sanity_typedefs_ok in H as (Hnd & Hw & Hm & Hc). constructor; auto.
   - intros d Hin. apply check_wf_sound; auto.
   - apply contractive_sound; auto.
   - intros d Hin. apply check_wf_sound; auto.
+  - intros d Hin. destruct (check_wf_sound _ _ (Hw d Hin)) as [_ Hmo].
+    destruct (proj1 (modes_ok_proper D) _ _ Hmo) as [Hp _].
+    symmetry. apply (mode_eqb_proper _ _ Hp). apply Hm; auto.
 Qed.
 
 Theorem wf_complete_proof D : WellFormed D -> sanity_typedefs D = Ok None.
 Proof.
-  intros [Hnd Hl Hc Hm _]. apply sanity_typedefs_ok. repeat split; auto.
+  intros [Hnd Hl Hc Hm Hd]. apply sanity_typedefs_ok. repeat split; auto.
   - intros d Hin. apply check_wf_complete; auto. split; auto.
+  - intros d Hin. destruct (proj1 (modes_ok_proper D) _ _ (Hm d Hin)) as [Hp _].
+    apply (mode_eqb_proper _ _ Hp). symmetry. apply Hd; auto.
   - intros d Hin. apply (chain_ok D Hnd Hc Hl); auto.
     + constructor.
     + intros z [].
@@ -420,49 +427,6 @@ Proof.
   - intros z [<-|[]]. apply in_map; auto.
   - intros z [<-|[]]. apply rt_refl.
   - cbn. lia.
-Qed.
-
-(* the repaired check (fixes/F20_defmode.patch): exactly the well-formed environments *)
-Lemma wf_all_fixed_none D l : wf_all_fixed D l = None <->
-  (forall d, In d l -> check_wf D (td_body d) = None /\ mode_eqb (mode_of (td_body d)) (td_mode d) = true).
-Proof.
-  induction l as [|d r IH]; cbn [wf_all_fixed In].
-  - split; [tauto | reflexivity].
-  - rewrite orelse_none, orelse_none, IH, if_negb_none. split.
-    + intros (H1 & (H2 & _) & H3) d' [<-|Hin]; auto.
-    + intros H. repeat split; try apply H; auto. intros d' Hin. apply H; auto.
-Qed.
-
-Lemma sanity_typedefs_fixed_ok D :
-  sanity_typedefs_fixed D = Ok None <->
-  sanity_typedefs D = Ok None /\ (forall d, In d D -> mode_eqb (mode_of (td_body d)) (td_mode d) = true).
-Proof.
-  unfold sanity_typedefs_fixed, sanity_typedefs. destruct (dup_def D []).
-  - split; [discriminate | intros [H _]; discriminate].
-  - destruct (wf_all_fixed D D) as [e|] eqn:Ef.
-    + split; [discriminate|]. intros [H Hm]. destruct (wf_all D D) as [e'|] eqn:Ew; [discriminate|].
-      assert (wf_all_fixed D D = None); [|congruence].
-      apply wf_all_fixed_none. intros d Hin. split; auto. apply (proj1 (wf_all_none D D) Ew); auto.
-    + pose proof (proj1 (wf_all_fixed_none D D) Ef) as Hf.
-      assert (Ew : wf_all D D = None) by (apply wf_all_none; intros d Hin; apply Hf; auto).
-      rewrite Ew. split; [intros H; split; auto; intros d Hin; apply Hf; auto | tauto].
-Qed.
-
-Theorem wf_sound_fixed_proof D : sanity_typedefs_fixed D = Ok None -> WellFormed D.
-Proof.
-  intros H. apply sanity_typedefs_fixed_ok in H as [H Hm]. apply wf_sound_guarded_proof; auto.
-  intros d Hin. pose proof (proj1 (sanity_typedefs_ok D) H) as (_ & Hw & _).
-  destruct (check_wf_sound _ _ (Hw d Hin)) as [_ Hmo].
-  destruct (proj1 (modes_ok_proper D) _ _ Hmo) as [Hp _].
-  symmetry. apply (mode_eqb_proper _ _ Hp). apply Hm; auto.
-Qed.
-
-Theorem wf_complete_fixed_proof D : WellFormed D -> sanity_typedefs_fixed D = Ok None.
-Proof.
-  intros H. apply sanity_typedefs_fixed_ok. split; [apply wf_complete_proof; auto|].
-  destruct H as [_ _ _ Hm Hd]. intros d Hin.
-  destruct (proj1 (modes_ok_proper D) _ _ (Hm d Hin)) as [Hp _].
-  apply (mode_eqb_proper _ _ Hp). symmetry. apply Hd; auto.
 Qed.
 
 (* annotation types (let / prc / assuming / typed cut): SanityChecksType *)
